@@ -21,7 +21,7 @@
       notification never omits it.
    7. [c01_failed_delivery_discharges_nothing]: a failed attempt / failed flush changes neither the log nor the
       group, so step 4 applies again at the next flush (one group_interval later), until one send succeeds. *)
-From AM Require Import Base.Prelude Model.Group Proofs.GroupProofs.
+From AM Require Import Base.Prelude Model.Group Proofs.GroupProofs Proofs.GroupLiveness.
 
 Theorem c01_new_group_first_deadline cfg s t a s' o :
   step cfg s t (EInsert a) = Some (s', o) -> s_group s = None ->
@@ -106,6 +106,40 @@ Theorem c01_log_changes_only_by_log_gc_merge cfg s t e s' o :
   (exists i F R, In (OLog i F R t) o) \/ e = ENflogGC \/ (exists i en, e = ENflogMerge i en \/ e = ENflogLoad i en).
 Proof. exact (nflog_changes_only_by_log cfg s t e s' o). Qed.
 
+(* ---- THE BOUND (the clauses above, composed): for ANY accepted run that starts with alert [a] (identity x) being
+   handed to the group, if
+     - x stays firing until T and every later update of x in the run is firing until T       ("continuously firing"),
+     - no tick of the run carries x in its suppressed set                                     ("not suppressed"),
+     - every delivery attempt of integration i in the run succeeds and its chain is never cut off by the flush
+       context expiring                                      ("provided the integration accepted deliveries"),
+     - the update is not stale (no newer version of x is stored) and a flush in flight did not freeze x as resolved,
+   then as soon as the run's clock has passed
+        flush_by + flush timeout,    flush_by = the armed deadline the alert meets:
+          new group: t0 + group_wait (t0 if the alert started more than group_wait ago);
+          live idle group: max(armed deadline, t0), at most one group_interval after the previous flush started;
+          flush in flight: max(armed deadline, that flush's context deadline, t0),
+   the outputs contain a SUCCESSFUL notification of integration i whose batch lists x as firing — or the chain found
+   x already listed as firing in the notification log when it consulted it (the receiver has been told: by this
+   instance earlier or by a peer; C04 then governs repeats).  flush timeout = max(group_interval, MinTimeout) +
+   cluster wait is the "delivery slack" of the property. *)
+Theorem c01_bounded_response cfg x i T s t0 a h s' outs :
+  run cfg s ((t0, EInsert a) :: h) = Some (s', outs) -> wf_state cfg s ->
+  a_id a = x -> firing_until T a -> fair x i T h ->
+  (forall g c, s_group s = Some g -> In c (gr_alerts g) -> a_id c = x -> a_upd c <= a_upd a) ->
+  (forall g fl f, s_group s = Some g -> gr_flight g = Some fl -> In f (fl_all fl) -> f_id f = x -> f_res f = false) ->
+  flush_by cfg s t0 a <= T -> (i < length (g_ints cfg))%nat -> 0 <= g_timeout cfg -> 0 <= g_wait cfg ->
+  flush_by cfg s t0 a + g_timeout cfg < s_clock s' ->
+  notified x i outs \/ ever cfg (listed x i) s ((t0, EInsert a) :: h).
+Proof. exact (bounded_response cfg x i T s t0 a h s' outs). Qed.
+
+(* the same from any state in which the group is idle and holds a firing version of x *)
+Theorem c01_bounded_response_idle cfg x i T h s s' outs g M :
+  run cfg s h = Some (s', outs) -> wf_state cfg s -> fair x i T h ->
+  s_group s = Some g -> gr_flight g = None -> has_x x T g ->
+  Z.max (gr_deadline g) (s_clock s) <= M -> M <= T -> (i < length (g_ints cfg))%nat -> 0 <= g_timeout cfg ->
+  M + g_timeout cfg < s_clock s' -> notified x i outs \/ ever cfg (listed x i) s h.
+Proof. exact (idle_phase cfg x i T h s s' outs g M). Qed.
+
 (* ---- non-vacuity: two integrations, one failing recoverably until the deadline, retried at the next flush ---- *)
 Definition ex_cfg := mkG 30 300 100000 310 1000000 [mkI true; mkI false].
 Definition ex_run : list (Z * ev) :=
@@ -128,6 +162,284 @@ Example c01_nonvacuous :
   end.
 Proof. vm_compute. reflexivity. Qed.
 
+(* non-vacuity of the bound: a run that meets every hypothesis of [c01_bounded_response] (and its conclusion) *)
+Definition ex_h2 : list (Z * ev) :=
+  [(30, ETick 30 []); (30, EDedup 0); (30, EDedup 1); (31, EAttempt 0 OK); (31, EAttempt 1 OK); (31, EFlushEnd);
+   (330, ETick 330 []); (330, EDedup 0); (330, EDedup 1); (330, EFlushEnd); (400, EEnd)].
+Example c01_bounded_response_nonvacuous :
+  let a := mkA 1 0 0 0 in
+  exists s' outs,
+    run ex_cfg (init ex_cfg 0) ((0, EInsert a) :: ex_h2) = Some (s', outs) /\
+    wf_state ex_cfg (init ex_cfg 0) /\ firing_until 1000 a /\ fair 1 0%nat 1000 ex_h2 /\
+    flush_by ex_cfg (init ex_cfg 0) 0 a = 30 /\ 30 + g_timeout ex_cfg < s_clock s' /\ notified 1 0%nat outs.
+Proof.
+  eexists. eexists. split; [vm_compute; reflexivity|].
+  split; [apply wf_init|]. split; [left; reflexivity|]. split.
+  - unfold fair, ex_h2. repeat split.
+    + intros t b Hin. repeat (destruct Hin as [Hin|Hin]; [discriminate|]). destruct Hin.
+    + intros t tau sup Hin Hx. repeat (destruct Hin as [Hin|Hin]; [try discriminate; injection Hin as _ _ <-; destruct Hx|]). destruct Hin.
+    + intros t oc Hin. repeat (destruct Hin as [Hin|Hin]; [try discriminate; try (injection Hin as _ <-; reflexivity)|]). destruct Hin.
+    + intros t Hin. repeat (destruct Hin as [Hin|Hin]; [discriminate|]). destruct Hin.
+  - split; [vm_compute; reflexivity|]. split; [vm_compute; reflexivity|].
+    exists RFirst, [mkF 1 false 0], (mkF 1 false 0). vm_compute. auto.
+Qed.
+
+
+(* ================================================================================================ *)
+(* INSTANCE LEVEL: routing + grouping + one timed group machine per aggregation group on ONE shared clock
+   (Model/Instance.v; proofs in Proofs/InstanceProofs.v). The theorems above are about one group; these lift them
+   to the whole instance. The decision which groups receive a published alert is the model's
+   ([targets] = match_route + group_labels), and an instance event at time t is applied to every group (the groups
+   it is not about only observe the clock), so no group's armed deadline can be passed while others are busy. *)
+From AM Require Import Model.Matchers Model.Route Model.Grouping Model.Instance Proofs.InstanceProofs.
+
+(* THE PROJECTION: an accepted instance run is, for every group key, an accepted run of the timed group model of that
+   key's route on the key's projected history, with exactly the outputs tagged with that key. *)
+Theorem c01_instance_projection cfg h s s' outs :
+  irun cfg s h = Some (s', outs) ->
+  forall k, run (gcfg_of cfg (fst k)) (view cfg s k) (proj_hist cfg k h) = Some (view cfg s' k, outs_for k outs).
+Proof. exact (irun_proj cfg h s s' outs). Qed.
+
+Theorem c01_instance_step_projection cfg s t ie s' o :
+  istep cfg s t ie = Some (s', o) ->
+  forall k, step (gcfg_of cfg (fst k)) (view cfg s k) t (proj cfg k ie) = Some (view cfg s' k, outs_for k o).
+Proof. exact (istep_proj cfg s t ie s' o). Qed.
+
+(* all groups carry the instance clock after every accepted step; it never goes backwards *)
+Theorem c01_instance_shared_clock cfg s t ie s' o :
+  istep cfg s t ie = Some (s', o) ->
+  is_clock s <= t /\ is_clock s' = t /\ forall k, s_clock (view cfg s' k) = t.
+Proof.
+  intros H. destruct (istep_clock cfg s t ie s' o H) as (H1 & H2 & H3).
+  split; [exact H1|]. split; [exact H2|]. intros k. rewrite (view_clock cfg s' k H3). exact H2.
+Qed.
+
+(* an own event of a group is exactly that step of the timed group model (so every per-group step theorem above
+   applies verbatim to the instance); every other group keeps its store and log *)
+Theorem c01_instance_group_event_is_group_step cfg s t k e s' o :
+  istep cfg s t (IGroup k e) = Some (s', o) ->
+  step (gcfg_of cfg (fst k)) (view cfg s k) t e = Some (view cfg s' k, outs_for k o) /\
+  forall k', k' <> k ->
+    outs_for k' o = [] /\ s_group (view cfg s' k') = s_group (view cfg s k') /\ s_nflog (view cfg s' k') = s_nflog (view cfg s k').
+Proof. exact (group_event_is_group_step cfg s t k e s' o). Qed.
+
+(* (a) the groups of an alert: one per route the routing tree selects, keyed by the alert's values of that route's
+   group_by; a published alert is stored, by that one event, in exactly these groups: a new group is created idle
+   with its first flush armed after the ROUTE's group_wait (at once when the alert started earlier than that), a live
+   group keeps its deadline and flight; no other group's store or log changes. *)
+Theorem c01_instance_groups_of_an_alert cfg ls p gl :
+  (p, gl) ∈ targets cfg ls <->
+  In p (match_route (ic_re cfg) ls (ic_route cfg)) /\
+  exists n, node_at (ic_route cfg) p = Some n /\ gl = group_labels (r_opts n) ls.
+Proof. exact (targets_spec cfg ls p gl). Qed.
+
+Theorem c01_instance_alert_joins_exactly_its_groups cfg s t ls st en up s' o :
+  istep cfg s t (IAlert ls st en up) = Some (s', o) ->
+  exists id, assoc (ic_ids cfg) ls = Some id /\ o = [] /\
+    forall k,
+      (k ∈ targets cfg ls ->
+         s_nflog (view cfg s' k) = s_nflog (view cfg s k) /\
+         s_group (view cfg s' k) =
+           Some (match s_group (view cfg s k) with
+                 | None => mkGr [mkA id st en up]
+                                (if st + ro_gw (opts_at cfg (fst k)) <? t then t else t + ro_gw (opts_at cfg (fst k))) None
+                 | Some g => mkGr (store_set (gr_alerts g) (mkA id st en up)) (gr_deadline g) (gr_flight g)
+                 end)) /\
+      (k ∉ targets cfg ls ->
+         s_nflog (view cfg s' k) = s_nflog (view cfg s k) /\ s_group (view cfg s' k) = s_group (view cfg s k)).
+Proof. exact (alert_joins_exactly_its_groups cfg s t ls st en up s' o). Qed.
+
+Theorem c01_instance_alert_is_member_of_its_groups cfg s t ls st en up s' o k :
+  istep cfg s t (IAlert ls st en up) = Some (s', o) -> k ∈ targets cfg ls ->
+  exists id g' b, assoc (ic_ids cfg) ls = Some id /\ s_group (view cfg s' k) = Some g' /\
+                  In b (gr_alerts g') /\ a_id b = id /\ (b = mkA id st en up \/ up < a_upd b).
+Proof. exact (alert_is_member_of_its_groups cfg s t ls st en up s' o k). Qed.
+
+(* (b) END TO END, first flush. An alert published at t that creates group k (one of the groups the model selects for
+   it): the first flush of k is armed at d = t + group_wait of k's route (t itself when the alert started more than
+   group_wait ago); NO accepted continuation of the instance run - whatever the other groups, alerts, receivers and
+   log GCs do - gets its clock past d without group k's tick at exactly d, at an instant t' >= d, whose batch (the
+   OFlush output tagged k) lists the alert's identity (its latest published version b), frozen at t'. The alert cannot
+   leave the group before: deletion only happens at the end of a flush. Suppression is applied after the batch is
+   taken (the tick's suppressed set), and what every integration then does with it is clauses 4-7 above, which
+   apply to the instance through [c01_instance_group_event_is_group_step]. *)
+Theorem c01_instance_published_alert_first_flush cfg s t ls st en up s1 o1 k h s2 outs :
+  istep cfg s t (IAlert ls st en up) = Some (s1, o1) -> k ∈ targets cfg ls -> s_group (view cfg s k) = None ->
+  irun cfg s1 h = Some (s2, outs) ->
+  let d := if st + ro_gw (opts_at cfg (fst k)) <? t then t else t + ro_gw (opts_at cfg (fst k)) in
+  0 <= ro_gw (opts_at cfg (fst k)) -> d < is_clock s2 ->
+  exists id t' sup all b,
+    assoc (ic_ids cfg) ls = Some id /\
+    s_group (view cfg s1 k) = Some (mkGr [mkA id st en up] d None) /\
+    In (t', IGroup k (ETick d sup)) h /\ In (k, OFlush all) outs /\ In (freeze t' b) all /\ a_id b = id /\ d <= t'.
+Proof. exact (published_alert_first_flush cfg s t ls st en up s1 o1 k h s2 outs). Qed.
+
+(* an alert joining a live idle group waits for that group's armed deadline (at most one group_interval after the
+   previous flush started, [c01_tick_on_time]) *)
+Theorem c01_instance_published_alert_joins_idle_group cfg s t ls st en up s1 o1 k g h s2 outs :
+  istep cfg s t (IAlert ls st en up) = Some (s1, o1) -> k ∈ targets cfg ls ->
+  s_group (view cfg s k) = Some g -> gr_flight g = None -> t <= gr_deadline g ->
+  irun cfg s1 h = Some (s2, outs) -> gr_deadline g < is_clock s2 ->
+  exists id t' sup all b,
+    assoc (ic_ids cfg) ls = Some id /\
+    In (t', IGroup k (ETick (gr_deadline g) sup)) h /\ In (k, OFlush all) outs /\ In (freeze t' b) all /\ a_id b = id /\
+    gr_deadline g <= t'.
+Proof. exact (published_alert_joins_idle_group cfg s t ls st en up s1 o1 k g h s2 outs). Qed.
+
+(* general form: any idle armed group holding an alert *)
+Theorem c01_instance_member_is_flushed_by_the_deadline cfg s h s' outs k g id :
+  clock_inv s -> irun cfg s h = Some (s', outs) ->
+  s_group (view cfg s k) = Some g -> gr_flight g = None -> holds id g ->
+  is_clock s <= gr_deadline g -> gr_deadline g < is_clock s' ->
+  exists t sup all b, In (t, IGroup k (ETick (gr_deadline g) sup)) h /\ In (k, OFlush all) outs /\
+                      In (freeze t b) all /\ a_id b = id /\ gr_deadline g <= t.
+Proof. exact (member_is_flushed_by_the_deadline cfg s h s' outs k g id). Qed.
+
+(* partial: for an alert that joins a group while a flush is in flight only the per-group clauses are lifted
+   ([c01_flush_must_end], then the next tick at the deadline armed by the running flush); the combined statement
+   "and the next batch lists it unless the ending flush deleted it as resolved-and-unmodified" is not stated here. *)
+
+(* the group's stores hold only alerts that were published and that the model routed there *)
+Theorem c01_instance_stored_alert_was_published_and_routed cfg t0 h s outs k g b :
+  irun cfg (iinit t0) h = Some (s, outs) -> s_group (view cfg s k) = Some g -> In b (gr_alerts g) ->
+  exists t ls, In (t, IAlert ls (a_starts b) (a_ends b) (a_upd b)) h /\ assoc (ic_ids cfg) ls = Some (a_id b) /\ k ∈ targets cfg ls.
+Proof. exact (stored_alert_was_published_and_routed cfg t0 h s outs k g b). Qed.
+
+Theorem c01_instance_reachable_views_wellformed cfg t0 h s outs k :
+  irun cfg (iinit t0) h = Some (s, outs) -> wf_state (gcfg_of cfg (fst k)) (view cfg s k).
+Proof. exact (reachable_views_wellformed cfg t0 h s outs k). Qed.
+
+(* (d) non-interference: what group k outputs, stores and logs is determined by the events relevant for k - its own
+   events, the alerts routed to it, the shared log GC, each with its instant; the other groups' events (and alerts
+   routed elsewhere) influence k only through whether the shared timeline is accepted. *)
+Theorem c01_instance_non_interference cfg s h1 h2 s1 o1 s2 o2 k :
+  irun cfg s h1 = Some (s1, o1) -> irun cfg s h2 = Some (s2, o2) ->
+  relevant cfg k h1 = relevant cfg k h2 ->
+  outs_for k o1 = outs_for k o2 /\
+  s_group (view cfg s1 k) = s_group (view cfg s2 k) /\ s_nflog (view cfg s1 k) = s_nflog (view cfg s2 k).
+Proof. exact (non_interference cfg s h1 h2 s1 o1 s2 o2 k). Qed.
+
+Theorem c01_instance_irrelevant_events cfg k ie :
+  is_end (proj cfg k ie) = true <->
+  match ie with
+  | IAlert ls st en up => assoc (ic_ids cfg) ls = None \/ k ∉ targets cfg ls
+  | IGroup k' e => k' <> k \/ e = EEnd
+  | IGC => False
+  | IEnd => True
+  end.
+Proof. exact (irrelevant_events cfg k ie). Qed.
+
+(* alert identities are data of the case; when the table is well-formed (checked, not assumed) an identity names
+   one label set *)
+Theorem c01_instance_identity_names_one_label_set cfg ls1 ls2 id :
+  ids_ok cfg = true -> assoc (ic_ids cfg) ls1 = Some id -> assoc (ic_ids cfg) ls2 = Some id -> ls1 = ls2.
+Proof. exact (ids_injective cfg ls1 ls2 id). Qed.
+
+(* ================================================================================================ *)
+(* THE HEADLINE, instance level: [c01_bounded_response] lifted through [c01_instance_projection]
+   (Proofs/InstanceLiveness.v). The instance started at t00 and ran any accepted history h0; then an alert with label
+   set ls (identity x) is published at t0. For EVERY group k the model selects for it (k ∈ targets = match_route +
+   group_labels) and EVERY integration i of k's receiver: if, on the instance's own event list, every later
+   publication of x that is routed to k stays firing until T, no tick of k suppresses x, the attempts of (k, i) succeed
+   and its chain's context does not expire ([ifair]), the published version is not older than a stored one and a
+   flush of k in flight did not freeze x as resolved, then once the instance clock has passed
+       flush_by(k) + timeout(k)       (flush_by(k) = t0 + group_wait of k's route for a new group, at once when the
+                                       alert started earlier; the armed deadline / the running flush's context
+                                       deadline for a live group; timeout(k) = max(group_interval, MinTimeout) + wait)
+   integration i of group k HAS BEEN SENT, successfully, a batch listing x as firing - or at some point of the run the
+   log entry of (k, i) already listed x as firing (this instance earlier, or a peer through gossip, told the receiver;
+   then C04 governs the repeats). All other groups, alerts, receivers and log GCs of the instance are arbitrary. *)
+From AM Require Import Proofs.InstanceLiveness.
+
+Theorem c01_instance_bounded_response cfg t00 h0 s t0 ls st en up h s' outs o0 k x i T :
+  let gc := gcfg_of cfg (fst k) in
+  let a := mkA x st en up in
+  irun cfg (iinit t00) h0 = Some (s, o0) ->
+  irun cfg s ((t0, IAlert ls st en up) :: h) = Some (s', outs) ->
+  assoc (ic_ids cfg) ls = Some x -> k ∈ Instance.targets cfg ls ->
+  (i < length (g_ints gc))%nat ->
+  firing_until T a -> ifair cfg k x i T h ->
+  (forall g c, s_group (view cfg s k) = Some g -> In c (gr_alerts g) -> a_id c = x -> a_upd c <= up) ->
+  (forall g fl f, s_group (view cfg s k) = Some g -> gr_flight g = Some fl -> In f (fl_all fl) -> f_id f = x -> f_res f = false) ->
+  flush_by gc (view cfg s k) t0 a <= T -> 0 <= g_timeout gc -> 0 <= g_wait gc ->
+  flush_by gc (view cfg s k) t0 a + g_timeout gc < is_clock s' ->
+  inotified k x i outs \/ ilisted_sometime cfg k x i s ((t0, IAlert ls st en up) :: h).
+Proof. exact (instance_bounded_response cfg t00 h0 s t0 ls st en up h s' outs o0 k x i T). Qed.
+
+(* the same from any instance state whose view of k is well-formed *)
+Theorem c01_instance_bounded_response_from cfg s t0 ls st en up h s' outs k x i T :
+  let gc := gcfg_of cfg (fst k) in
+  let a := mkA x st en up in
+  irun cfg s ((t0, IAlert ls st en up) :: h) = Some (s', outs) -> wf_state gc (view cfg s k) ->
+  assoc (ic_ids cfg) ls = Some x -> k ∈ Instance.targets cfg ls ->
+  firing_until T a -> ifair cfg k x i T h ->
+  (forall g c, s_group (view cfg s k) = Some g -> In c (gr_alerts g) -> a_id c = x -> a_upd c <= up) ->
+  (forall g fl f, s_group (view cfg s k) = Some g -> gr_flight g = Some fl -> In f (fl_all fl) -> f_id f = x -> f_res f = false) ->
+  flush_by gc (view cfg s k) t0 a <= T -> (i < length (g_ints gc))%nat -> 0 <= g_timeout gc -> 0 <= g_wait gc ->
+  flush_by gc (view cfg s k) t0 a + g_timeout gc < is_clock s' ->
+  inotified k x i outs \/ ilisted_sometime cfg k x i s ((t0, IAlert ls st en up) :: h).
+Proof. exact (instance_bounded_response_from cfg s t0 ls st en up h s' outs k x i T). Qed.
+
+(* the instance-level fairness is the obvious sufficient condition for the per-group one on k's projected history *)
+Theorem c01_instance_fairness_projects cfg k x i T h :
+  (forall t e, In (t, e) h -> ev_ok cfg e = true) -> ifair cfg k x i T h -> fair x i T (proj_hist cfg k h).
+Proof. exact (ifair_fair cfg k x i T h). Qed.
+
+(* what the bound is made of, in the route's own terms *)
+Theorem c01_instance_group_timers cfg p :
+  g_wait (gcfg_of cfg p) = ro_gw (opts_at cfg p) /\ g_interval (gcfg_of cfg p) = ro_gi (opts_at cfg p) /\
+  g_repeat (gcfg_of cfg p) = ro_ri (opts_at cfg p) /\
+  g_timeout (gcfg_of cfg p) = Z.max (ro_gi (opts_at cfg p)) (ic_min_timeout cfg) + ic_wait cfg /\
+  g_ints (gcfg_of cfg p) = ints_of cfg (ro_receiver (opts_at cfg p)).
+Proof. exact (gcfg_of_timers cfg p). Qed.
+
+(* non-vacuity of the headline on the example below: alert 1 published at 0 into the new group k1 (group_wait 20,
+   timeout max(300,10)+0); integration 1 of k1 ("team") is notified at 20; every hypothesis holds with T = 1000 *)
+Example c01_instance_bounded_response_nonvacuous :
+  let h := tl iex_hist in
+  ifair iex_cfg iex_k1 1 1 1000 h /\
+  flush_by (gcfg_of iex_cfg (fst iex_k1)) (view iex_cfg (iinit 0) iex_k1) 0 (mkA 1 0 0 0) = 20 /\
+  g_timeout (gcfg_of iex_cfg (fst iex_k1)) = 300 /\
+  inotified iex_k1 1 1 [(iex_k1, ONotify 1 RFirst [mkF 1 false 0] OK)].
+Proof. exact instance_bounded_response_nonvacuous. Qed.
+
+(* ---- non-vacuity, instance level: two child routes (the first with continue), two alerts; the first alert is in two
+   groups (flushed at 10 and 20), the second in the root's group (flushed at 35); a log GC in between ---- *)
+Example c01_instance_nonvacuous :
+  ids_ok iex_cfg = true /\
+  targets iex_cfg iex_ls1 = [iex_k0; iex_k1] /\ targets iex_cfg iex_ls2 = [iex_kr] /\
+  match irun iex_cfg (iinit 0) iex_hist with
+  | Some (s, outs) =>
+      outs = [(iex_k0, OFlush [mkF 1 false 0]); (iex_k0, ONotify 0 RFirst [mkF 1 false 0] OK); (iex_k0, OLog 0 [1] [] 10);
+              (iex_k0, OFlushEnd true);
+              (iex_k1, OFlush [mkF 1 false 0]); (iex_k1, ONotify 1 RFirst [mkF 1 false 0] OK); (iex_k1, OLog 1 [1] [] 20);
+              (iex_k1, ONotify 0 RFirst [mkF 1 false 0] Recoverable); (iex_k1, ONotify 0 RFirst [mkF 1 false 0] OK);
+              (iex_k1, OLog 0 [1] [] 22); (iex_k1, OFlushEnd true);
+              (iex_kr, OFlush [mkF 2 false 5]); (iex_kr, ONotify 0 RFirst [mkF 2 false 5] OK); (iex_kr, OLog 0 [2] [] 35);
+              (iex_kr, OFlushEnd true)] /\
+      is_clock s = 100 /\ map fst (is_groups s) = [iex_k0; iex_k1; iex_kr]
+  | None => False
+  end.
+Proof. exact instance_nonvacuous. Qed.
+
+(* ... and the same timeline without group k1's flush is rejected: its deadline 20 cannot be passed silently *)
+Example c01_instance_rejects_a_skipped_flush :
+  irun iex_cfg (iinit 0)
+    [(0, IAlert iex_ls1 0 0 0); (10, IGroup iex_k0 (ETick 10 [])); (10, IGroup iex_k0 (EDedup 0));
+     (10, IGroup iex_k0 (EAttempt 0 OK)); (10, IGroup iex_k0 EFlushEnd); (21, IEnd)] = None.
+Proof. exact instance_rejects_a_skipped_flush. Qed.
+
 Print Assumptions c01_tick_must_happen.
 Print Assumptions c01_unlisted_firing_alert_is_sent.
 Print Assumptions c01_success_records_batch.
+Print Assumptions c01_instance_projection.
+Print Assumptions c01_instance_alert_joins_exactly_its_groups.
+Print Assumptions c01_instance_published_alert_first_flush.
+Print Assumptions c01_instance_published_alert_joins_idle_group.
+Print Assumptions c01_instance_member_is_flushed_by_the_deadline.
+Print Assumptions c01_instance_stored_alert_was_published_and_routed.
+Print Assumptions c01_instance_non_interference.
+Print Assumptions c01_bounded_response.
+Print Assumptions c01_bounded_response_idle.
+Print Assumptions c01_instance_bounded_response.
+Print Assumptions c01_instance_bounded_response_from.
